@@ -52,7 +52,9 @@ def table_twins(task):
         return st
 
     st = build()
-    if st.exc or tm.check(st, "C01", hist[-1] if hist else None):
+    # states produced by the open finding F28 (repeated setters on bound objects) are
+    # reported by C01/C02 and not explored here; every other state is, even when wrong
+    if st.exc or any(o[0] in ("row_repeated", "cell_repeated") for o in hist):
         return (0, [], 0)
     st = build()
     alph = "mini"
